@@ -1,6 +1,9 @@
 # C12: SLIP framing is transparent, bounded and self-resynchronising
 SCRIPTED = ["src/rfc1055.c", "src/endpoints/core.c"]
 REAL = SCRIPTED + ["src/endpoints/buffer.c", "src/byte-buffer.c"]
+# endpoints/core.c references byte_buffer_rest/_rewind (sts_* plumbing, not
+# reached from rfc1055.c): needed by the linker of the replay build only
+RU = SCRIPTED + ["src/byte-buffer.c"]
 
 INFO = {
     "explanation": "",
@@ -10,27 +13,66 @@ INFO = {
     "assumptions": [],
 }
 
+# loops of the endpoint layer: sink_put_chunk runs once per escape pair,
+# sink_adapt twice (two octets), the chunk stub copies <= 2 octets
+EP = {"sink_put_chunk": 2, "sink_adapt": 3, "ssink_put_chunk": 3,
+      "source_adapt": 2, "source_get_chunk": 2, "memcpy": 3, "memset": 3}
 
-def codec(name, np_, nf, real):
+
+def codec(name, np_, nf, kind, sof):
     wc = 2 * np_ + 2
-    enc = nf * wc
-    big = enc + 2 * 2 + 2
-    d = {"NP": np_, "NF": nf}
-    if real:
+    big = nf * wc + 2 * 2 + 2
+    d = {"NP": np_, "NF": nf, "SOF": sof}
+    if kind == "real":
         d["REAL_BUF"] = None
-    return mk(name, "C12/c12_codec.c", REAL if real else SCRIPTED, d,
-              unwind={"harness": big, "memcpy": big, "memset": big,
-                      "ref_frame": np_ + 2,
-                      "rfc1055_encode": np_ + 2, "rfc1055_decode": wc + 2,
-                      "sink_put_chunk": 3, "sink_adapt": 4, "source_adapt": 3,
-                      "source_get_chunk": 3},
-              default_unwind=3, fp_removal=True)
+    elif kind == "octet":
+        d["OCTET_SINK"] = None
+    uw = dict(EP)
+    uw.update({"harness": big, "ref_frame": np_ + 2,
+               "rfc1055_encode": np_ + 2, "rfc1055_decode": wc + 1})
+    return mk(name, "C12/c12_codec.c", REAL if kind == "real" else SCRIPTED, d,
+              unwind=uw, default_unwind=3, fp_removal=True,
+              replay_units=REAL if kind == "real" else RU)
+
+
+def step(name, k, sof):
+    uw = dict(EP)
+    uw.update({"harness": k + 2, "rfc1055_decode": k + 2})
+    return mk(name, "C12/c12_step.c", SCRIPTED, {"K": k, "SOF": sof},
+              unwind=uw, default_unwind=3, fp_removal=True, replay_units=RU)
+
+
+def resync(name, ng, nf, npr, sof):
+    l = ng + 1 + nf * (2 * npr + 2)
+    uw = dict(EP)
+    uw.update({"harness": l + 2, "ref_frame": npr + 2, "rfc1055_decode": l + 2})
+    return mk(name, "C12/c12_resync.c", SCRIPTED,
+              {"NG": ng, "NF": nf, "NPR": npr, "SOF": sof},
+              unwind=uw, default_unwind=3, fp_removal=True, replay_units=RU,
+              object_bits=12)
+
+
+def errors(name, np_, kind):
+    wc = 2 * np_ + 2
+    d = {"NP": np_}
+    if kind == "octet":
+        d["OCTET_SINK"] = None
+    uw = dict(EP)
+    uw.update({"harness": wc + 2, "ref_frame": np_ + 2, "rfc1055_encode": np_ + 2,
+               "rfc1055_decode": wc + 1})
+    return mk(name, "C12/c12_errors.c", SCRIPTED, d, unwind=uw,
+              default_unwind=3, fp_removal=True, replay_units=RU)
 
 
 def instances(tier):
     q = tier == "quick"
-    out = [
-        codec("c12_roundtrip_buf_np%d" % (3 if q else 5), 3 if q else 5, 1, True),
-        codec("c12_concat_np%d" % (2 if q else 3), 2 if q else 3, 2, False),
-    ]
+    out = []
+    for sof in (0, 1):
+        m = "sof" if sof else "classic"
+        out.append(codec("c12_roundtrip_buf_%s" % m, 3 if q else 5, 1, "real", sof))
+        out.append(codec("c12_roundtrip_%s" % m, 4 if q else 8, 1, "chunk", sof))
+        out.append(codec("c12_concat_%s" % m, 2 if q else 3, 2, "octet", sof))
+        out.append(step("c12_step_%s" % m, 4 if q else 6, sof))
+        out.append(resync("c12_resync_%s" % m, 2 if q else 5, 2 if q else 3, 1 if q else 2, sof))
+    out.append(errors("c12_errors", 3 if q else 6, "octet"))
     return out
